@@ -57,6 +57,9 @@ where
         let file = region.open_db_read_only_file().expect("open file");
         let region_meta = region.meta();
         let region_start = region_meta.start();
+        // Only elements physically in the region are addressable (see RawMmapSource).
+        let stored_len =
+            stored_len.min(region_meta.len().saturating_sub(HEADER_OFFSET) / Self::SIZE_OF_T);
         let start_offset = region_start + HEADER_OFFSET;
         let from = from.min(stored_len);
         let to = to.min(stored_len);
